@@ -1417,46 +1417,27 @@ Require Verif.Tie.HexRange.
 Require Verif.Tie.MavenRange.
 Require Verif.Tie.NugetRange.
 Require Verif.Tie.PypiRange.
-Definition C05_tie_cargo_caret := Verif.Tie.CargoRange.tie_cargo_caret.
-Print Assumptions C05_tie_cargo_caret.
-Definition C05_tie_cargo_tilde := Verif.Tie.CargoRange.tie_cargo_tilde.
-Print Assumptions C05_tie_cargo_tilde.
-Definition C05_tie_cargo_satisfiesConstraint := Verif.Tie.CargoRange.tie_cargo_satisfiesConstraint.
-Print Assumptions C05_tie_cargo_satisfiesConstraint.
-Definition C05_tie_conan_isOperator := Verif.Tie.ConanRange.tie_conan_isOperator.
-Print Assumptions C05_tie_conan_isOperator.
-Definition C05_tie_conan_VersionRange_constraintSatisfied := Verif.Tie.ConanRange.tie_conan_VersionRange_constraintSatisfied.
-Print Assumptions C05_tie_conan_VersionRange_constraintSatisfied.
-Definition C05_tie_conan_VersionRange_constraintSatisfied_model := Verif.Tie.ConanRange.tie_conan_VersionRange_constraintSatisfied_model.
-Print Assumptions C05_tie_conan_VersionRange_constraintSatisfied_model.
-Definition C05_tie_conan_VersionRange_groupSatisfied := Verif.Tie.ConanRange.tie_conan_VersionRange_groupSatisfied.
-Print Assumptions C05_tie_conan_VersionRange_groupSatisfied.
-Definition C05_tie_conan_VersionRange_Contains := Verif.Tie.ConanRange.tie_conan_VersionRange_Contains.
-Print Assumptions C05_tie_conan_VersionRange_Contains.
-Definition C05_tie_conan_VersionRange_String := Verif.Tie.ConanRange.tie_conan_VersionRange_String.
-Print Assumptions C05_tie_conan_VersionRange_String.
-Definition C05_tie_gem_VersionRange_String := Verif.Tie.GemRange.tie_gem_VersionRange_String.
-Print Assumptions C05_tie_gem_VersionRange_String.
-Definition C05_tie_gem_VersionRange_Contains := Verif.Tie.GemRange.tie_gem_VersionRange_Contains.
-Print Assumptions C05_tie_gem_VersionRange_Contains.
-Definition C05_tie_hex_matches := Verif.Tie.HexRange.tie_hex_matches.
-Print Assumptions C05_tie_hex_matches.
-Definition C05_tie_hex_matches_model := Verif.Tie.HexRange.tie_hex_matches_model.
-Print Assumptions C05_tie_hex_matches_model.
-Definition C05_tie_hex_contains := Verif.Tie.HexRange.tie_hex_contains.
-Print Assumptions C05_tie_hex_contains.
-Definition C05_tie_maven_satisfiesConstraint := Verif.Tie.MavenRange.tie_maven_satisfiesConstraint.
-Print Assumptions C05_tie_maven_satisfiesConstraint.
-Definition C05_tie_maven_contains := Verif.Tie.MavenRange.tie_maven_contains.
-Print Assumptions C05_tie_maven_contains.
-Definition C05_tie_nuget_matches := Verif.Tie.NugetRange.tie_nuget_matches.
-Print Assumptions C05_tie_nuget_matches.
-Definition C05_tie_nuget_matches_model := Verif.Tie.NugetRange.tie_nuget_matches_model.
-Print Assumptions C05_tie_nuget_matches_model.
-Definition C05_tie_nuget_contains := Verif.Tie.NugetRange.tie_nuget_contains.
-Print Assumptions C05_tie_nuget_contains.
-Definition C05_tie_pypi_VersionRange_String := Verif.Tie.PypiRange.tie_pypi_VersionRange_String.
-Print Assumptions C05_tie_pypi_VersionRange_String.
-Definition C05_tie_pypi_VersionRange_Contains := Verif.Tie.PypiRange.tie_pypi_VersionRange_Contains.
-Print Assumptions C05_tie_pypi_VersionRange_Contains.
+Definition C05_tie_cargo_caret := @Verif.Tie.CargoRange.tie_cargo_caret.
+Definition C05_tie_cargo_tilde := @Verif.Tie.CargoRange.tie_cargo_tilde.
+Definition C05_tie_cargo_satisfiesConstraint := @Verif.Tie.CargoRange.tie_cargo_satisfiesConstraint.
+Definition C05_tie_conan_isOperator := @Verif.Tie.ConanRange.tie_conan_isOperator.
+Definition C05_tie_conan_VersionRange_constraintSatisfied := @Verif.Tie.ConanRange.tie_conan_VersionRange_constraintSatisfied.
+Definition C05_tie_conan_VersionRange_constraintSatisfied_model := @Verif.Tie.ConanRange.tie_conan_VersionRange_constraintSatisfied_model.
+Definition C05_tie_conan_VersionRange_groupSatisfied := @Verif.Tie.ConanRange.tie_conan_VersionRange_groupSatisfied.
+Definition C05_tie_conan_VersionRange_Contains := @Verif.Tie.ConanRange.tie_conan_VersionRange_Contains.
+Definition C05_tie_conan_VersionRange_String := @Verif.Tie.ConanRange.tie_conan_VersionRange_String.
+Definition C05_tie_gem_VersionRange_String := @Verif.Tie.GemRange.tie_gem_VersionRange_String.
+Definition C05_tie_gem_VersionRange_Contains := @Verif.Tie.GemRange.tie_gem_VersionRange_Contains.
+Definition C05_tie_hex_matches := @Verif.Tie.HexRange.tie_hex_matches.
+Definition C05_tie_hex_matches_model := @Verif.Tie.HexRange.tie_hex_matches_model.
+Definition C05_tie_hex_contains := @Verif.Tie.HexRange.tie_hex_contains.
+Definition C05_tie_maven_satisfiesConstraint := @Verif.Tie.MavenRange.tie_maven_satisfiesConstraint.
+Definition C05_tie_maven_contains := @Verif.Tie.MavenRange.tie_maven_contains.
+Definition C05_tie_nuget_matches := @Verif.Tie.NugetRange.tie_nuget_matches.
+Definition C05_tie_nuget_matches_model := @Verif.Tie.NugetRange.tie_nuget_matches_model.
+Definition C05_tie_nuget_contains := @Verif.Tie.NugetRange.tie_nuget_contains.
+Definition C05_tie_pypi_VersionRange_String := @Verif.Tie.PypiRange.tie_pypi_VersionRange_String.
+Definition C05_tie_pypi_VersionRange_Contains := @Verif.Tie.PypiRange.tie_pypi_VersionRange_Contains.
+Definition C05_ties_all := (C05_tie_cargo_caret, (C05_tie_cargo_satisfiesConstraint, (C05_tie_cargo_tilde, (C05_tie_conan_VersionRange_Contains, (C05_tie_conan_VersionRange_String, (C05_tie_conan_VersionRange_constraintSatisfied, (C05_tie_conan_VersionRange_constraintSatisfied_model, (C05_tie_conan_VersionRange_groupSatisfied, (C05_tie_conan_isOperator, (C05_tie_gem_VersionRange_Contains, (C05_tie_gem_VersionRange_String, (C05_tie_hex_contains, (C05_tie_hex_matches, (C05_tie_hex_matches_model, (C05_tie_maven_contains, (C05_tie_maven_satisfiesConstraint, (C05_tie_nuget_contains, (C05_tie_nuget_matches, (C05_tie_nuget_matches_model, (C05_tie_pypi_VersionRange_Contains, C05_tie_pypi_VersionRange_String)))))))))))))))))))).
+Print Assumptions C05_ties_all.
 (* ====== ties to the source: END ====== *)
